@@ -79,8 +79,11 @@ def _format_column(col, max_preview: int | None = None) -> List[str]:
 	
 	# Truncate with symmetric preview
 	vals = col._underlying
+	max_preview = max(max_preview, 0)
 	if len(vals) > max_preview * 2:
-		preview = list(vals[:max_preview]) + ['...'] + list(vals[-max_preview:])
+		# (vals[-0:] would be the whole column, not the last zero rows)
+		tail = list(vals[-max_preview:]) if max_preview else []
+		preview = list(vals[:max_preview]) + ['...'] + tail
 	else:
 		preview = list(vals)
 
